@@ -629,10 +629,16 @@ func condLabel(cond ssa.Value, want bool) string {
 	return "F(" + desc(cond) + ")"
 }
 
+// phiCondBusy: phis whose label is being computed (a flag accumulated in a loop, `found = found || c`, refers to itself
+// through the branch that tests it: such a value has no finite disjunction of branch facts)
+var phiCondBusy = map[*ssa.Phi]bool{}
+
 func phiCondLabel(p *ssa.Phi, want bool, depth int) (string, bool) {
-	if depth > 3 {
+	if depth > 3 || phiCondBusy[p] || len(phiCondBusy) > 6 {
 		return "", false
 	}
+	phiCondBusy[p] = true
+	defer delete(phiCondBusy, p)
 	if b, ok := p.Type().Underlying().(*types.Basic); !ok || b.Kind() != types.Bool {
 		return "", false
 	}
